@@ -205,6 +205,29 @@ void LVCalc(matrix *X,
   }
   /* End Step 1 */
 
+  /* Nothing left to model: a null response block (constant response, or response already explained),
+   * a null X block (more latent variables than the rank of X) or a response orthogonal to every x variable
+   * give w = 0 and the iteration becomes 0/0 forever. The latent variable does not exist:
+   * return it null with b = 0 and leave X and Y as they are. */
+  DVectorMatrixDotProduct(X_, u_, w_);
+  if(DVectorDVectorDotProd(w_, w_) == 0.f){
+    DVectorSet(t, 0.f);
+    DVectorSet(u, 0.f);
+    DVectorSet(p, 0.f);
+    DVectorSet(q, 0.f);
+    DVectorSet(w, 0.f);
+    (*bcoef) = 0.f;
+    DelMatrix(&X_);
+    DelMatrix(&Y_);
+    DelDVector(&t_);
+    DelDVector(&p_);
+    DelDVector(&u_);
+    DelDVector(&q_);
+    DelDVector(&w_);
+    DelDVector(&t_old);
+    return;
+  }
+
   #ifdef DEBUG
   step = 0;
   #endif
